@@ -10,7 +10,7 @@ RULE = ("generated programs with nested blocks, shadowing at every depth (same a
         "not mention the name: same value/output/error required, (3) with one identifier use replaced by an undeclared "
         "name, every position in turn: a reference error with empty output before anything runs required. "
         "non-trivial = distinct program text that compiles (or, for (3), distinct (program, position))")
-ASSUMPTIONS = ["alpha_invariance and undeclared_rejected for whole programs rest on the byte-level compiler correspondence plus the proved symbol-table theorems; they are not yet whole-compiler theorems"]
+ASSUMPTIONS = ["alpha-invariance of the whole compiler and static rejection are theorems about Compiler.v (CompilerNames.v); the implementation is tied to it by the byte-level correspondence"]
 NOTES = ["proved (all tables, all names): resolve = documented lookup, define/slot facts, block/function exit restores the table, context isolation, renaming invariance, rollback"]
 
 DIRECTED = [
